@@ -7,3 +7,7 @@ import Lean.Meta.Tactic.Simp.RegisterCommand
 
 register_simp_attr lexc_fn
 register_simp_attr lexc_pred
+/-- `lexc_cls`: the character-class theorems of Lemmas/LexerC.lean (generated predicate on `sc b` = hand-model predicate on `b`) -/
+register_simp_attr lexc_cls
+/-- `lexc_ref`: the refinement theorems of the functions already proved (used instead of unfolding a callee) -/
+register_simp_attr lexc_ref
